@@ -280,6 +280,22 @@ func runC01(c *Ctx) {
 		}
 		c.Check(fname(fn)+"#verifies-against-own-seed-step-index", fn.Pos(), len(bad) == 0, ifelse(len(bad) == 0, "MakeM(seed, role, index) of the verifier's own parameters", strings.Join(bad, "; ")+": the credential is not verified for the claimed step / round index"))
 	}
+	// ------------------------------------------------------------ R7
+	c.Rule("C01.R7", "PROVENANCE", "the validator set in which header verification resolves voters and the proposer is the protocol's stake look-back set: every call in consensus/ucon that opens a validator reader from a look-back kind passes LookBackStake / LookBackCertStake, a kind converted by TurnToStakeType, or its caller's own kind (judged at the caller) — never a seed / position kind, which maps to a nearer block")
+	c.Min(4)
+	lookBackStakeKinds(c, w)
+
+	// ------------------------------------------------------------ R8
+	c.Rule("C01.R8", "FLOWS-TO", "a sortition proof pins its output: the challenge that (PublicKey).ProofToHash recomputes and compares is a hash over a transcript that contains — each directly, not merely through a curve operation — H1 of the message, the verifier's public key and the VRF point carried in the proof; the index is returned only when the comparison succeeds. Otherwise a key holder picks the output, derives a matching proof, and grinds seats and priorities: weight-inflated votes would count")
+	c.Min(1)
+	{
+		pth := w.Fn("crypto/vrf/secp256k1", "PublicKey", "ProofToHash")
+		c.sawFunc(fname(pth))
+		h1, pkIn, vrfIn, where := vrfTranscript(w, pth)
+		c.sites++
+		okT := h1 && pkIn && vrfIn
+		c.Check(fname(pth)+"#challenge-binds-message-key-and-output", pth.Pos(), okT, ifelse(okT, "the challenge transcript contains H1(m), the public key and the VRF point of the proof ("+where+")", fmt.Sprintf("the challenge hash does not cover (H1 of the message=%v, the public key=%v, the VRF point carried in the proof=%v) directly (%s): a key holder can choose the VRF output freely and still present a proof that verifies", h1, pkIn, vrfIn, where)))
+	}
 }
 
 func ifelse(b bool, x, y string) string {
@@ -850,5 +866,176 @@ func c01Variants() []Variant {
 		{Name: "return-before-certificate", File: f, Old: "		cd.cp = &yp.CaravelParams\n		cd.lbVld = certVldReader", New: "		if len(header.Certificate) == 0 {\n			return nil\n		}\n		cd.cp = &yp.CaravelParams\n		cd.lbVld = certVldReader", Rule: "C01.R4", Construct: "verifyConsensusFieldMain#accepting-return"},
 		{Name: "blank-consensus", File: "core/types/ucon.go", Old: "	newHeader.Certificate = []byte{}\n", New: "	newHeader.Certificate = []byte{}\n	newHeader.Consensus = []byte{}\n", Rule: "C01.R5", Construct: "blanked-fields"},
 		{Name: "quorum-half", File: "consensus/ucon/config.go", Old: "ValidatorProportionThreshold = 0.685", New: "ValidatorProportionThreshold = 0.5", Rule: "C01.R5", Construct: "ValidatorProportionThreshold"},
+	}
+}
+
+// lookBackStakeKinds: validator sets are read at the STAKE look-back. Every
+// call that opens a validator reader from a look-back kind passes
+// LookBackStake / LookBackCertStake, a value converted by TurnToStakeType, or
+// the caller's own look-back parameter (then the caller's call sites are
+// judged, to a fixpoint). Shared by C01.R7 (verifier side) and C03.Q10
+// (signer / counting side): both sides must resolve voter indexes in the same
+// validator set, the one sortition credentials are issued for.
+func lookBackStakeKinds(c *Ctx, w *World) {
+	lbT := w.Named("params", "LookBackType")
+	readerT := w.Named(statePkg, "ValidatorReader")
+	stakeV, _ := constant.Int64Val(constant.ToInt(constOf(w, "params", "LookBackStake")))
+	certStakeV, _ := constant.Int64Val(constant.ToInt(constOf(w, "params", "LookBackCertStake")))
+	turn := w.FuncObj("params", "", "TurnToStakeType")
+	isLB := func(t types.Type) bool { return types.Identical(t, lbT) }
+	// openers by signature: a LookBackType parameter and a ValidatorReader result
+	openerParam := func(sig *types.Signature) int {
+		hasReader := false
+		for i := 0; i < sig.Results().Len(); i++ {
+			if types.Identical(sig.Results().At(i).Type(), readerT) {
+				hasReader = true
+			}
+		}
+		if !hasReader {
+			return -1
+		}
+		for i := 0; i < sig.Params().Len(); i++ {
+			if isLB(sig.Params().At(i).Type()) {
+				return i
+			}
+		}
+		return -1
+	}
+	var fns []*ssa.Function
+	for _, fn := range w.FuncsIn(uconPkg) {
+		if fn.Blocks != nil && !strings.HasSuffix(w.fileOf(fn.Pos()), "_test.go") {
+			fns = append(fns, fn)
+		}
+	}
+	// forwarders: functions (closures included) whose own look-back parameter reaches an opener unconverted
+	forward := map[*ssa.Function]int{} // fn -> index into fn.Params
+	lbArgOf := func(ci ssa.CallInstruction) (ssa.Value, bool) {
+		com := ci.Common()
+		if g := com.StaticCallee(); g != nil {
+			if idx, ok := forward[g]; ok && idx < len(com.Args) {
+				return com.Args[idx], true
+			}
+			if g.Signature != nil {
+				if pi := openerParam(g.Signature); pi >= 0 {
+					off := 0
+					if g.Signature.Recv() != nil {
+						off = 1
+					}
+					if pi+off < len(com.Args) {
+						return com.Args[pi+off], true
+					}
+				}
+			}
+			return nil, false
+		}
+		sig := com.Signature()
+		if sig == nil {
+			return nil, false
+		}
+		if pi := openerParam(sig); pi >= 0 && pi < len(com.Args) {
+			return com.Args[pi], true // invoke through an interface / function value: no receiver among Args
+		}
+		return nil, false
+	}
+	type site struct {
+		fn  *ssa.Function
+		ci  ssa.CallInstruction
+		arg ssa.Value
+	}
+	var sites []site
+	for changed := true; changed; {
+		changed = false
+		sites = sites[:0]
+		for _, fn := range fns {
+			for _, ci := range callInstrs(fn) {
+				arg, ok := lbArgOf(ci)
+				if !ok {
+					continue
+				}
+				sites = append(sites, site{fn, ci, arg})
+				if p, isP := stripConvNoBind(arg).(*ssa.Parameter); isP && p.Parent() == fn {
+					for i, q := range fn.Params {
+						if q == p {
+							if _, done := forward[fn]; !done {
+								forward[fn] = i
+								changed = true
+							}
+						}
+					}
+				}
+			}
+		}
+	}
+	n := 0
+	perFn := map[*ssa.Function]int{}
+	for _, s := range sites {
+		v := stripConvNoBind(s.arg)
+		if p, isP := v.(*ssa.Parameter); isP && p.Parent() == s.fn {
+			continue // judged at the caller's call sites
+		}
+		n++
+		c.sites++
+		c.sawFunc(fname(s.fn))
+		perFn[s.fn]++
+		cons := fmt.Sprintf("%s#validator-set-at-stake-look-back-%d", fname(s.fn), perFn[s.fn])
+		ok, how := false, ""
+		var judge func(v ssa.Value, d int) bool
+		judge = func(v ssa.Value, d int) bool {
+			if d > 6 {
+				return false
+			}
+			switch x := stripConvNoBind(v).(type) {
+			case *ssa.Const:
+				k, isC := constInt(x)
+				return isC && (k == stakeV || k == certStakeV)
+			case *ssa.Call:
+				return sameFunc(calleeObj(x), turn)
+			case *ssa.Phi:
+				for _, e := range x.Edges {
+					if !judge(e, d+1) {
+						return false
+					}
+				}
+				return len(x.Edges) > 0
+			case *ssa.FreeVar:
+				// a closure variable: judge what the enclosing function binds
+				if par := x.Parent().Parent(); par != nil {
+					for _, b := range par.Blocks {
+						for _, in := range b.Instrs {
+							if mc, isMC := in.(*ssa.MakeClosure); isMC && mc.Fn == ssa.Value(x.Parent()) {
+								for i, fv := range x.Parent().FreeVars {
+									if fv == x && i < len(mc.Bindings) {
+										return judge(mc.Bindings[i], d+1)
+									}
+								}
+							}
+						}
+					}
+				}
+			case *ssa.UnOp:
+				if al, isAl := x.X.(*ssa.Alloc); isAl && x.Op == token.MUL {
+					all := true
+					nSt := 0
+					for _, r := range *al.Referrers() {
+						if st, isSt := r.(*ssa.Store); isSt && st.Addr == ssa.Value(al) {
+							nSt++
+							if !judge(st.Val, d+1) {
+								all = false
+							}
+						}
+					}
+					return all && nSt > 0
+				}
+			}
+			return false
+		}
+		ok = judge(s.arg, 0)
+		if ok {
+			how = "LookBackStake / LookBackCertStake / TurnToStakeType(…)"
+		}
+		c.Check(cons, s.ci.Pos(), ok, ifelse(ok, how, "a validator set is opened with the look-back kind "+termOf(s.arg, 3)+", which is not a stake look-back: seed / position kinds map to a different block distance, so voter indexes, membership and weights are resolved in another validator set than the one sortition credentials and the other side (signer ↔ verifier) use"))
+	}
+	if n == 0 {
+		c.Undecided("consensus/ucon#validator-reader-openers", token.NoPos, "no call opening a validator reader from a look-back kind was found")
 	}
 }
